@@ -147,7 +147,17 @@ def run(rep, tier):
                 want = {'safe_params.' + lg for lg in SAFE_ARGS[ename].values()}
                 got = {k for k in o1 if k.startswith('safe_params.')}
                 if got != want:
-                    rep.violation('C09:safe-params-names', f'endpoint {ename}: on success the safe-parameter set has keys {sorted(got)}, declared safe arguments are {sorted(want)}', {'got': sorted(got)})
+                    def names_battery(ename=ename, want=want):
+                        a = {'op': 'endpoint', 'endpoint': 'e1', 'path': {'pathWire': '37'}, 'query': [['queryWire', '61']], 'headers': [['x-foo', '37'], ['authorization', '42656172657220616263']]}
+                        b = {'op': 'endpoint', 'endpoint': 'e2', 'path': {'p': '78'}, 'query': [['optWire', '35']], 'headers': [['x-bar', '7a'], ['cookie', '544f4b454e3d616263']]}
+                        out = []
+                        for o, r in zip((a, b), replay([a, b])):
+                            keys = sorted('safe_params.' + x.split('=')[0] for x in r.get('safe_params', []))
+                            exp = sorted('safe_params.' + lg for lg in SAFE_ARGS[o['endpoint']].values())
+                            if not r.get('ok') or keys != exp:
+                                out.append(f'{o["endpoint"]}: native safe params {keys}, declared {exp} ({r.get("ok")})')
+                        return out
+                    rep.structural('C09:safe-params-names', f'endpoint {ename}: on success the safe-parameter set has keys {sorted(got)}, declared safe arguments are {sorted(want)}', {'got': sorted(got)}, names_battery)
         rep.extra.setdefault('pairs', {})[ename] = npairs
         if not npairs:
             rep.inconc(f'vacuity: C09 {ename} compared no pair of outcomes')
